@@ -9,15 +9,15 @@ from panoptica.utils.numpy_utils import _get_bbox_nd
 
 RULE = ("base pairs (objects on every face of the array, thin/diagonal/split/merged instances) x input types x matchers "
         "(thresholds below and at 1/2) x {zero padding 0-3 per side per axis, cropping of shared empty margins, every "
-        "subset of axis flips, every axis permutation} x memory layouts {C, Fortran, negative strides, non-contiguous view}; "
+        "subset of axis flips, every axis permutation} x memory layouts {C, Fortran, negative strides, non-contiguous view} chosen independently for the two maps; embedding in volumes of more than 2^20 voxels; "
         "plus model/implementation correspondence of the bounding box (all paddings) and of the whole-pair crop; "
         "non-trivial = transformation is not the identity and an object touches the array border before or after")
 
 KEYS_EXACT = ("num_ref_instances", "num_pred_instances", "tp", "fp", "fn")
 
 
-def layouts(rng, a):
-    k = rng.choice(["C", "F", "neg", "view"])
+def layouts(rng, a, k=None):
+    k = k or rng.choice(["C", "F", "neg", "view"])
     if k == "C":
         return np.ascontiguousarray(a), k
     if k == "F":
@@ -55,10 +55,9 @@ def transform(rng, pred, ref):
         p, r = np.transpose(p, perm), np.transpose(r, perm)
         desc["perm"] = perm
     p, lay = layouts(rng, p)
-    r2, _ = (np.asfortranarray(r), 0) if lay == "F" else (np.ascontiguousarray(r), 0)
-    if lay in ("neg", "view"):
-        r2, _ = layouts(rng, r) if False else (r, 0)
+    r2, lay2 = layouts(rng, r)          # chosen independently: the two maps may differ in memory layout
     desc["layout"] = lay
+    desc["layout_ref"] = lay2
     return p, r2, desc
 
 
@@ -115,10 +114,10 @@ def one_case(ctx, pred, ref, cfg, src):
         if m.any():
             idx = np.argwhere(m)
             touches = bool((idx.min(0) == 0).any() or (idx.max(0) == np.array(pred.shape) - 1).any())
-        ident = set(desc) <= {"layout"} and desc["layout"] == "C"
+        ident = set(desc) <= {"layout", "layout_ref"} and desc["layout"] == "C" and desc["layout_ref"] == "C"
         ctx.case(inp, (not ident) and touches, sample={k2: inp[k2] for k2 in ("shape", "pred", "ref", "transform")} if pred.size <= 20 else None)
         for k2 in desc:
-            ctx.count("t." + k2 + ("." + str(desc[k2]) if k2 == "layout" else ""))
+            ctx.count("t." + k2 + ("." + str(desc[k2]) if k2.startswith("layout") else ""))
         ctx.count("input." + cfg["input"])
         if tie:
             ctx.count("tie_skipped")
@@ -162,6 +161,41 @@ def crop_case(ctx, pred, ref, src):
                 ctx.disagree(f"bounding box pad={pad}", inp, got, clipped)
             if int((a[bb] != 0).sum()) != int((a != 0).sum()):
                 ctx.violation(f"bounding box with padding {pad} does not contain every non-zero voxel", inp, impl=got, key={"kind": "bbox"})
+
+
+def huge_padding(ctx, n):
+    """the same small scene embedded in a volume of more than 2^20 voxels at offsets one voxel apart
+    (implementation only; the model never sees the large array)"""
+    rng = ctx.rng
+    for k in range(n):
+        ref = np.zeros((6, 6, 6), np.uint8)
+        pred = np.zeros((6, 6, 6), np.uint8)
+        ref[0:3, 0:3, 0:3] = 1
+        pred[0:3, 0:3, 1:4] = 1
+        z = rng.randrange(6)
+        ref[5, rng.randrange(6), z] = 2          # a one-voxel instance far from the block
+        pred[5, rng.randrange(6), z] = 2
+        cfg = rng.choice([E.mk_cfg("UNMATCHED", ["IOU", "DSC", "ASSD", "RVD"], matcher=E.naive("IOU", (1, 4))),
+                          E.mk_cfg("MATCHED", ["IOU", "DSC", "ASSD", "RVD"])])
+        base = E.run_impl(cfg, pred, ref)
+        if isinstance(base, str):
+            continue
+        big_shape = (128, 128, 80)
+        for off in [(rng.randint(0, 100), rng.randint(0, 100), rng.randint(0, 60)) for _ in range(2)] + [(41, 41, 41), (42, 41, 41)]:
+            P = np.zeros(big_shape, np.uint8)
+            R = np.zeros(big_shape, np.uint8)
+            sl = tuple(slice(o, o + 6) for o in off)
+            P[sl], R[sl] = pred, ref
+            inp = {"shape": list(pred.shape), "pred": gen.arr_json(pred), "ref": gen.arr_json(ref), "cfg": cfg,
+                   "transform": {"embed_in": list(big_shape), "offset": list(off)}, "huge": True, "src": f"huge{k}"}
+            ctx.case(inp, True)
+            ctx.count("huge_padding")
+            got = E.run_impl(cfg, P, R)
+            d = "raised " + got if isinstance(got, str) else summ_equal(base["ungrouped"], got["ungrouped"], cfg["eval_metrics"])
+            if d:
+                ctx.violation(f"result changes when the scene is embedded in a {big_shape} volume at offset {off}: {d}", inp,
+                              impl={"base": base["ungrouped"], "embedded": got if isinstance(got, str) else got["ungrouped"]},
+                              key={"kind": "not-invariant"})
 
 
 def rand_cfg(rng):
@@ -222,6 +256,7 @@ def run_cases(ctx, n, tag):
 
 def run(ctx):
     corpus(ctx)
+    huge_padding(ctx, ctx.scale(2, 10))
     run_cases(ctx, ctx.scale(350, 3500), "rand")
 
 
@@ -233,12 +268,24 @@ def replay(ctx, rec):
     i = rec["input"]
     pred = np.array(i["pred"], dtype=np.uint8).reshape(i["shape"])
     ref = np.array(i["ref"], dtype=np.uint8).reshape(i["shape"])
+    if i.get("huge"):
+        big, off = tuple(i["transform"]["embed_in"]), i["transform"]["offset"]
+        P, R = np.zeros(big, np.uint8), np.zeros(big, np.uint8)
+        sl = tuple(slice(o, o + n) for o, n in zip(off, pred.shape))
+        P[sl], R[sl] = pred, ref
+        base = E.run_impl(i["cfg"], pred, ref)["ungrouped"]
+        got = E.run_impl(i["cfg"], P, R)
+        ctx.case(i, True)
+        d = "raised " + got if isinstance(got, str) else summ_equal(base, got["ungrouped"], i["cfg"]["eval_metrics"])
+        if d:
+            ctx.violation(f"result changes under embedding: {d}", i, key={"kind": "not-invariant"})
+        return
     if i.get("kind") == "crop":
         crop_case(ctx, pred, ref, "replay")
         return
     base = E.run_impl(i["cfg"], pred, ref)["ungrouped"]
-    p2 = np.array(i["t_pred"], dtype=np.uint8).reshape(i["t_shape"])
-    r2 = np.array(i["t_ref"], dtype=np.uint8).reshape(i["t_shape"])
+    p2 = layouts(None, np.array(i["t_pred"], dtype=np.uint8).reshape(i["t_shape"]), i["transform"].get("layout", "C"))[0]
+    r2 = layouts(None, np.array(i["t_ref"], dtype=np.uint8).reshape(i["t_shape"]), i["transform"].get("layout_ref", "C"))[0]
     got = E.run_impl(i["cfg"], p2, r2)
     ctx.case(i, True)
     d = "raised " + got if isinstance(got, str) else summ_equal(base, got["ungrouped"], i["cfg"]["eval_metrics"])
